@@ -163,13 +163,33 @@ func scIsolation(r *Run) {
 		return true
 	}
 
+	stoppingNow := func() bool {
+		mu.Lock()
+		defer mu.Unlock()
+		return stopping
+	}
 	reader := func(in *tubeInst) {
 		defer wg.Done()
 		if in.rel {
 			buf := make([]byte, 8192)
 			var acc []byte
+			lingered, nLinger, lingerGap := 0, 0, time.Duration(0)
+			if r.Intn(fmt.Sprintf("linger%d", in.tag), 3) == 0 {
+				nLinger = 1 + r.Intn(fmt.Sprintf("linger%d", in.tag), 4)
+				lingerGap = time.Duration(50+r.Intn(fmt.Sprintf("linger%d", in.tag), 4000)) * time.Millisecond
+			}
 			for {
-				k, err := in.t.Read(buf)
+				var k int
+				var err error
+				if lingered > 0 {
+					// (a read on an ended tube returns at once; should it block, that is not this property's business)
+					if !WithTimeout(r, 5*time.Second, func() { k, err = in.t.Read(buf) }) {
+						r.Probe("late-read-on-ended-tube-blocks")
+						return
+					}
+				} else {
+					k, err = in.t.Read(buf)
+				}
 				acc = append(acc, buf[:k]...)
 				for len(acc) >= cellLen {
 					cell := acc[:cellLen]
@@ -183,7 +203,18 @@ func scIsolation(r *Run) {
 					}
 				}
 				if err != nil {
-					return
+					if lingered >= nLinger {
+						return
+					}
+					// an application that holds on to a tube that has ended and reads it again later - when the
+					// tube has long been closed and reaped and other tubes carry data: it gets the error again
+					// (whatever it may get, it must not be another tube's data: the cells are judged as always)
+					lingered++
+					r.CountFault("read-on-ended-tube-later", 1)
+					time.Sleep(lingerGap)
+					if stoppingNow() {
+						return
+					}
 				}
 			}
 		}
